@@ -19,7 +19,7 @@ GenPrefix == IF BigPrefixes # {} /\ rng % 5 < 3 THEN Nth(Asc(BigPrefixes), D(5))
 CountSeq == <<1, 1, 2, 2, 3, MaxCount>>
 \* three out of four writes are live entries
 GenNext ==
-  /\ rng' = (75 * rng + 74) % 65537
+  /\ \E d \in 0..3 : rng' = (75 * (rng + d) + 74) % 65537
   /\ \/ Load
      \/ (nput < MaxPuts /\ Put(1 + (D(3) % NLayers), Nth(KeysSeq, D(11)), D(2) % 4 # 0))
      \/ (nput >= MaxPuts - (rng % 4) /\ PageFirst(GenPrefix, D(3) % 2 = 0, Nth(CountSeq, D(17))))
